@@ -79,7 +79,8 @@ BUILTIN_C = {
     'std::uint64_t': 'unsigned long', 'std::int64_t': 'long', 'ptrdiff_t': 'long', 'std::ptrdiff_t': 'long',
     'std::streamsize': 'long', 'std::streamoff': 'long', 'std::nullptr_t': 'void *', 'nullptr_t': 'void *',
     'std::ios_base::openmode': 'int', 'std::_Ios_Openmode': 'int', 'std::ios_base::seekdir': 'int',
-    'std::_Ios_Seekdir': 'int', 'std::byte': 'unsigned char',
+    'std::_Ios_Seekdir': 'int', 'std::byte': 'unsigned char', 'std::fpos': 'long', 'std::streampos': 'long',
+    'fpos': 'long', 'std::ios_base::iostate': 'int', 'std::_Ios_Iostate': 'int',
 }
 
 STRING_NAMES = {'std::basic_string', 'std::__cxx11::basic_string', 'std::string', 'basic_string'}
@@ -93,7 +94,8 @@ ITER_NAMES = {'__gnu_cxx::__normal_iterator', '__normal_iterator'}
 REVITER_NAMES = {'std::reverse_iterator', 'reverse_iterator'}
 ARRAY_NAMES = {'std::array', 'array'}
 FSTREAM_NAMES = {'std::basic_fstream', 'std::fstream', 'std::basic_ifstream', 'std::ifstream', 'basic_fstream',
-                 'basic_ifstream', 'std::basic_istream', 'std::istream'}
+                 'basic_ifstream', 'std::basic_istream', 'std::istream', 'std::basic_ios', 'std::ios', 'std::basic_iostream',
+                 'std::ios_base', 'std::basic_ostream', 'std::ostream', 'basic_istream', 'basic_ios', 'basic_ostream'}
 SSTREAM_NAMES = {'std::basic_stringstream', 'std::stringstream', 'std::__cxx11::basic_stringstream',
                  'std::basic_ostringstream', 'std::__cxx11::basic_ostringstream', 'std::ostringstream'}
 
@@ -161,10 +163,24 @@ class Translator:
         if 'file' in loc: self._cur_file = loc['file']
         if 'line' in loc: self._cur_line = loc['line']
 
+    def _find_decl_ref(self, node):
+        for c in node.get('inner', []):
+            if isinstance(c, dict):
+                d = c.get('decl')
+                if d and d.get('id'): return d['id']
+                r = self._find_decl_ref(c)
+                if r: return r
+        return None
+
+    def _loc_line_of(self, node):
+        # line of 'loc' (not of range.begin): loc is printed first, so the tracked line before range.begin is its line
+        return node.get('_locline')
+
     def _index(self, node, parent, filt, qprefix=None):
         nid = node.get('id')
         kind = node.get('kind')
-        if 'loc' in node: self._upd_loc(node['loc'])
+        if 'loc' in node:
+            self._upd_loc(node['loc']); node['_locline'] = self._cur_line
         if 'range' in node:
             self._upd_loc(node['range'].get('begin'))
             node['_line'] = self._cur_line; node['_file'] = self._cur_file
@@ -184,6 +200,10 @@ class Translator:
         q = None
         if kind in ('NamespaceDecl', 'CXXRecordDecl', 'ClassTemplateSpecializationDecl', 'EnumDecl'):
             name = node.get('name')
+            if not name and kind == 'CXXRecordDecl' and node.get('completeDefinition'):
+                lc = node.get('loc', {})
+                if 'expansionLoc' in lc: lc = lc['expansionLoc']
+                name = '__unnamed_L%sC%s' % (self._loc_line_of(node), lc.get('col'))
             if parent is None and qprefix is None:
                 q = self._root_qname(node, filt)
             elif name:
@@ -197,7 +217,11 @@ class Translator:
                     self.records[q] = node
         elif kind in ('TypeAliasDecl', 'TypedefDecl') and qprefix and node.get('name'):
             t = node.get('type', {})
-            self.aliases[qprefix + '::' + node['name']] = t.get('desugaredQualType') or t.get('qualType')
+            target = t.get('desugaredQualType') or t.get('qualType')
+            did = self._find_decl_ref(node)
+            if did is not None and did in self.qname_of:
+                target = self.qname_of[did]       # typedef of an unnamed struct: clang prints the typedef name for it
+            self.aliases[qprefix + '::' + node['name']] = target
         if kind in ('FunctionDecl', 'CXXMethodDecl', 'CXXConstructorDecl', 'CXXDestructorDecl', 'CXXConversionDecl'):
             if any(c.get('kind') == 'CompoundStmt' for c in node.get('inner', [])) and \
                not (parent is not None and parent.get('kind') == 'FunctionTemplateDecl' and 'mangledName' not in node):
@@ -299,10 +323,9 @@ class Translator:
 
     # ------------------------------------------------------------------ types
     def resolve_alias(self, name):
-        seen = 0
-        while name in self.aliases and seen < 10:
-            return self.aliases[name]
-        return None
+        a = self.aliases.get(name)
+        if a is None or a == name or a.strip() == name: return None
+        return a
 
     def tparse(self, tnode_or_str):
         if isinstance(tnode_or_str, dict):
@@ -357,8 +380,12 @@ class Translator:
             return self.category(t)
         a = self.resolve_alias(n)
         if a is not None:
-            return self.category(self.tparse(a))
-        if n in self.opts.get('opaque_types', ()): return 'opaque'
+            ta = self.tparse(a)
+            cat = self.category(ta)
+            if cat in ('record', 'enum') and ta.kind == 'named':
+                t.name = ta.name
+            return cat
+        if n in self.opts.get('opaque_types', ()) or n in ('std::filesystem::path', 'std::filesystem::__cxx11::path'): return 'opaque'
         return 'unknown'
 
     def complete_name(self, n):
@@ -417,7 +444,10 @@ class Translator:
             self.use_record(n); return 'struct ' + self.record_cname(n)
         if cat == 'nullopt': return 'int'
         if cat == 'opaque':
-            return 'struct opaque_' + sanitize(n)
+            m = sanitize(n.replace('__cxx11::', ''))
+            self.inst('OPAQUE_DECL', m)
+            self.dropped.add('type %s is opaque: only default construction, copy and assignment are translated' % n)
+            return 'struct opaque_' + m
         a = self.resolve_alias(n)
         if a is not None:
             return self.ctype(a)
